@@ -7,7 +7,7 @@ import subprocess
 import sys
 import tempfile
 
-from core import Check, VERIF, run_check, watchdog
+from core import tool, Check, VERIF, run_check, watchdog
 import gen
 from p_graph import tokenize_gfa
 
@@ -179,7 +179,7 @@ def run_order(gtext, order, with_seq, by_chrom, tmp, gz=False, default_order=Fal
     shutil.rmtree(out, ignore_errors=True)
     try:
         with watchdog(120):
-            order_gfa.run_order_gfa(src, out, by_chrom=by_chrom, chromosome_order=("" if default_order else ",".join(order)), with_sequence=with_seq)
+            tool("order_gfa", gfa_filename=src, outdir=out, by_chrom=by_chrom, chromosome_order=("" if default_order else ",".join(order)), with_sequence=with_seq)
     except SystemExit as e:
         return {"outcome": "exit", "code": e.code}
     except BaseException as e:  # noqa
@@ -286,7 +286,7 @@ def main(prop):
                       "each chromosome name has a strict plurality in its component (ties are broken by set order)",
                       "biccs exactness is C15's subject (definition-level checker on the implementation's output, not a general theorem)"]
     ck.canon = ["L lines compared as a multiset", "BO/NO read from the written S lines", "log output ignored"]
-    ck.lean_build({"C06": ["Gaftools.Props.C06", "Gaftools.Props.C06b", "Gaftools.Props.C06c", "Gaftools.Props.C06d", "Gaftools.Props.C06e", "Gaftools.Props.C06f", "Gaftools.Props.C06g", "Gaftools.Props.TieA2"], "C07": ["Gaftools.Props.C07", "Gaftools.Props.TieA"], "C18": ["Gaftools.Props.C18", "Gaftools.Props.TieA2"]}[prop])
+    ck.lean_build({"C06": ["Gaftools.Props.C06", "Gaftools.Props.C06b", "Gaftools.Props.C06c", "Gaftools.Props.C06d", "Gaftools.Props.C06e", "Gaftools.Props.C06f", "Gaftools.Props.C06g", "Gaftools.Props.TieA2"], "C07": ["Gaftools.Props.C07", "Gaftools.Props.C07b", "Gaftools.Props.C07c", "Gaftools.Props.TieA"], "C18": ["Gaftools.Props.C18", "Gaftools.Props.C18b", "Gaftools.Props.TieA2"]}[prop])
     ck.audit("%s.lean" % prop)
     rng = ck.rng
     quick = ck.tier == "quick"
@@ -629,7 +629,7 @@ def command_check(ck, prop, gtext, tok, order, with_seq, res, r, tmp, replay, de
         shutil.rmtree(out, ignore_errors=True)
         try:
             with watchdog(120):
-                order_gfa.run_order_gfa(src, out, by_chrom=True, chromosome_order=opt, with_sequence=with_seq)
+                tool("order_gfa", gfa_filename=src, outdir=out, by_chrom=True, chromosome_order=opt, with_sequence=with_seq)
             outcome = "accepted"
         except SystemExit as e:
             outcome = "rejected" if e.code not in (0, None) else "exit0"
